@@ -15,6 +15,10 @@ import (
 	ethtypes "github.com/ethereum/go-ethereum/core/types"
 	"pgregory.net/rapid"
 
+	cpctypes "github.com/EscanBE/evermint/v12/x/cpc/types"
+	evmtypes "github.com/EscanBE/evermint/v12/x/evm/types"
+	"github.com/cosmos/cosmos-sdk/x/authz"
+
 	"verif/harness/chain"
 	"verif/harness/evmgen"
 )
@@ -115,9 +119,14 @@ func genEvmWorld(t *rapid.T, cfg worldCfg) chain.World {
 	gc := evmgen.GenCfg{Addrs: addrs, CallTargets: targets, NoCtx: cfg.NoCtx, NoGasRead: cfg.NoGasRead, NoCreate: cfg.NoCreate, NoDestruct: cfg.NoDestruct, MaxStmts: 7, Depth: 2}
 	for i := 0; i < n; i++ {
 		var p evmgen.Program
-		if rapid.IntRange(0, 2).Draw(t, "reentrant") == 0 {
+		switch k := rapid.IntRange(0, 11).Draw(t, "progkind"); {
+		case k <= 3:
 			p = evmgen.GenReentrant(t, gc, poolAddr(i))
-		} else {
+		case k <= 5:
+			p = evmgen.GenRepeater(t, gc)
+		case k == 6 && !cfg.NoDestruct:
+			p = evmgen.GenDestructor(t, gc)
+		default:
 			p = evmgen.GenProgram(t, gc)
 		}
 		c := chain.GenContract{Addr: poolAddr(i), Code: evmgen.CompileHex(p), Nonce: 1}
@@ -370,6 +379,11 @@ func (b *planBuilder) build(p TxPlan) builtTx {
 		amt, _ := sdkmath.NewIntFromString(p.Amount)
 		msg := banktypes.NewMsgSend(chain.K(p.From).Acc(), chain.K(p.ToKey).Acc(), sdk.NewCoins(sdk.NewCoin(chain.Denom, amt)))
 		ct := chain.CosmosTx{Signer: p.From, Msgs: []sdk.Msg{msg}, Gas: p.Gas, FeeAmount: fee.String(), SeqDelta: int64(p.NonceOff)}
+		if p.Type == 2 {
+			// dynamic-fee extension: the fee above is the cap, p.Tip the priority price
+			tip := strconv.FormatUint(p.Tip, 10)
+			ct.TipCap = &tip
+		}
 		switch p.Mut {
 		case "accnum":
 			ct.AccNumDelta = 1
@@ -388,6 +402,63 @@ func (b *planBuilder) build(p TxPlan) builtTx {
 			b.seqs[p.From] = seq + 1
 		}
 		return builtTx{Bytes: bz, Sender: chain.K(p.From).Addr, Plan: p, SignedSeq: uint64(int64(seq) + int64(p.NonceOff))}
+	case "smuggle":
+		// a Cosmos tx signed by the attacker (p.From) that tries to get an Ethereum message signed by somebody else
+		// (p.ToKey) executed through the Cosmos lane: nested in authz exec messages / listed beside other messages
+		attacker, victim := chain.K(p.From), chain.K(p.ToKey)
+		vseq := b.seq(p.ToKey)
+		inner := chain.EthTx{From: p.ToKey, Type: 0, Nonce: vseq, Gas: 21000, GasPrice: new(big.Int).Add(b.floor, big.NewInt(1)).String(), To: attacker.Addr.Hex(), Value: "100000000000000000", Unprotected: p.Mut == "unprotected"}
+		etx, err := inner.Sign()
+		if err != nil {
+			panic(err)
+		}
+		ebz, _ := etx.MarshalBinary()
+		declared := attacker.Acc().String() // x/authz accepts an exec whose inner signer is the grantee itself
+		if p.Type == 1 {
+			declared = victim.Acc().String()
+		}
+		eth := &evmtypes.MsgEthereumTx{MarshalledTx: ebz, From: declared}
+		wrap := func(ms ...sdk.Msg) sdk.Msg {
+			ex := authz.NewMsgExec(attacker.Acc(), ms)
+			return &ex
+		}
+		harmless := func() sdk.Msg {
+			return banktypes.NewMsgSend(attacker.Acc(), attacker.Acc(), sdk.NewCoins(sdk.NewCoin(chain.Denom, sdkmath.NewInt(1))))
+		}
+		var msgs []sdk.Msg
+		switch p.RIndex % 5 {
+		case 0:
+			msgs = []sdk.Msg{wrap(eth)}
+		case 1:
+			msgs = []sdk.Msg{wrap(harmless()), wrap(eth)}
+		case 2:
+			msgs = []sdk.Msg{wrap(wrap(harmless()), eth)}
+		case 3:
+			msgs = []sdk.Msg{harmless(), eth}
+		default:
+			msgs = []sdk.Msg{wrap(harmless()), wrap(wrap(eth))}
+		}
+		accNum, _, _ := b.c.AccountInfo(b.ctx, attacker.Acc())
+		seq := b.seq(p.From)
+		fee := new(big.Int).Mul(new(big.Int).Add(b.floor, big.NewInt(gwei)), big.NewInt(600000))
+		bz, err := chain.CosmosTx{Signer: p.From, Msgs: msgs, Gas: 600000, FeeAmount: fee.String()}.Build(b.c.TxCfg, b.c.World.CID(), accNum, seq)
+		if err != nil {
+			panic(fmt.Sprintf("build smuggle tx: %v", err))
+		}
+		b.seqs[p.From] = seq + 1 // if it is admitted as a Cosmos tx, the attacker's sequence moves
+		return builtTx{Bytes: bz, Sender: attacker.Addr, Plan: p, SignedSeq: seq}
+	case "deploy20":
+		accNum, _, _ := b.c.AccountInfo(b.ctx, chain.K(p.From).Acc())
+		seq := b.seq(p.From)
+		price := new(big.Int).Add(b.floor, big.NewInt(p.CapOver))
+		fee := new(big.Int).Mul(price, new(big.Int).SetUint64(p.Gas))
+		msg := &cpctypes.MsgDeployErc20ContractRequest{Authority: chain.K(p.From).Acc().String(), Name: "Foo", Symbol: "FOO", Decimals: 6, MinDenom: chain.SecondDenom}
+		bz, err := chain.CosmosTx{Signer: p.From, Msgs: []sdk.Msg{msg}, Gas: p.Gas, FeeAmount: fee.String()}.Build(b.c.TxCfg, b.c.World.CID(), accNum, seq)
+		if err != nil {
+			panic(fmt.Sprintf("build deploy tx: %v", err))
+		}
+		b.seqs[p.From] = seq + 1
+		return builtTx{Bytes: bz, Sender: chain.K(p.From).Addr, Plan: p, SignedSeq: seq}
 	case "raw":
 		bz, _ := hex.DecodeString(p.Raw)
 		return builtTx{Bytes: bz, Plan: p}
